@@ -50,14 +50,19 @@ Fixpoint seval (e : expr) (en : env) (obj : hostval) : res value :=
       end
   | EInfix op l r =>
       do a <- seval l en obj;
+      match op with
+      | TPeriod =>
+          (* `a.b` is `a["b"]`: what follows the dot names the member, it is not evaluated *)
+          match estr 64 r with Some name => spec_index o a (VStr name) | None => Err ENeedOracle end
+      | _ =>
       do b <- seval r en obj;
       match binop_of_tok op with
       | Some bop => spec_binop o bop a b
       | None => match op with
-                | TPeriod => spec_index o a b
                 | TDotDot => vm_range a b
                 | _ => Err EInternal
                 end
+      end
       end
   | EIndex l i =>
       do a <- seval l en obj;
